@@ -26,7 +26,11 @@ Local Open Scope Z_scope.
 Inductive lstage :=
 | LMap (p : sp)        (* map(x -> h(lin1 a b x)): iterator.MapAuto *)
 | LAccept (p : sp)     (* accept(x -> h(lin1 a b x) mod k != 0): iterator.FilterAuto *)
-| LNumber (p : sp).    (* number((i,e) -> h(lin2 a b i e)): iterator.Map with the index, a closure stage on the calling goroutine *)
+| LNumber (p : sp).    (* number((i,e) -> h(lin2 a b i e)): value/list.go Number, a closure stage on the calling goroutine.
+                          Deviation: behind an ERROR element of its input the library does not advance i (n++ sits inside
+                          `if err == nil`), the model counts positions.  Elements behind the first error of a stream never
+                          reach a verdict (every consumer stops at the first error; lazy_rel / scan only look at the values
+                          before it and at whether an error exists), so the difference is not observable here. *)
 
 Definition lmap_fn (p : sp) (_ : nat) (x : Z) : res Z := to_res (map_fn p x).
 Definition lnum_fn (p : sp) (i : nat) (x : Z) : res Z := to_res (hf (pfail p) (lin2 (pa p) (pb p) (Z.of_nat i) x)).
